@@ -155,6 +155,7 @@ func nwTreePool() []nwTree {
 }
 
 func runC05(r *core.Run) {
+	racePass(r, "race-format-newick", "the newick codec: readers each on their own stream (whole and in 7-byte reads, every corpus file), Write on shared records into separate destinations, File on one shared path; every result is compared with what the same call returned when it ran alone")
 	firstCallClause(r, "newick.Reader", "newick.Write")
 	N := core.Pick(r, 6, 8)
 	dev := 2
@@ -323,6 +324,30 @@ func runC05(r *core.Run) {
 	firstBytes(r, "newick", func(prefix string) ([]byte, []obsItem, bool, string) {
 		t := defaultNwTree([]int{0})
 		t.Names[0] = core.S(prefix + "n")
+		root := t.build()
+		second := defaultNwTree([]int{1, 0}).build()
+		d1, f1 := writeNewickChecked(root)
+		d2, f2 := writeNewickChecked(second)
+		if f1 != "" || f2 != "" {
+			return nil, nil, true, f1 + f2
+		}
+		return append(append(d1, '\n'), d2...), []obsItem{{Rec: renderNewick(root)}, {Rec: renderNewick(second)}}, true, ""
+	})
+	escapeSpellingsClause(r, "newick", []string{"root-name", "inner-name", "leaf-name", "leaf-name-with-distance", "only-node"}, func(field, v string) ([]byte, []obsItem, bool, string) {
+		t := defaultNwTree([]int{2, 1, 0, 0})
+		switch field {
+		case "root-name":
+			t.Names[0] = core.S(v)
+		case "inner-name":
+			t.Names[1] = core.S(v)
+		case "leaf-name":
+			t.Names[3] = core.S(v)
+		case "leaf-name-with-distance":
+			t.Names[2], t.Dists[2] = core.S(v), "0.5"
+		default:
+			t = defaultNwTree([]int{0})
+			t.Names[0], t.Dists[0] = core.S(v), "2"
+		}
 		root := t.build()
 		second := defaultNwTree([]int{1, 0}).build()
 		d1, f1 := writeNewickChecked(root)
